@@ -1,4 +1,5 @@
 import Pike.Lemmas.Fresh
+import Pike.Spec.Skeleton
 import Pike.Lemmas.SysUps
 import Pike.Props.C01
 /-
@@ -15,6 +16,14 @@ open Str Fresh
 shape under which the general theorem applies (case-insensitive alternation containing
 no-cache, no-store and private; presence test on all Set-Cookie values). -/
 theorem facts_ok : cfgOfFacts.map (fun c => decide (CfgOK c)) = some true := by decide
+
+/-- Obligation on the regenerated statement skeletons of `getCacheMaxAge` and `requestIsPass`: they are,
+statement for statement, what `Fresh.cacheMaxAge` / `Fresh.requestIsPass` transcribe (Set-Cookie test,
+joined Cache-Control, the three regular expressions in this order, s-maxage before max-age, Age subtracted
+last on every path). -/
+theorem skeleton_transcribed :
+    Facts.skel_getCacheMaxAge = Spec.Skeleton.getCacheMaxAge ∧ Facts.skel_requestIsPass = Spec.Skeleton.requestIsPass := by
+  constructor <;> rfl
 
 theorem cfg_ok {c : Cfg} (hc : cfgOfFacts = some c) : CfgOK c := by
   have := facts_ok
